@@ -187,7 +187,19 @@ def exact_batch(ctx, depth, roots, sequences, seq_len, max_extra, label, threads
         if k not in keys:
             keys[k] = len(keys)
     seed_recs = [fenlib.from_poskey(list(k)) for k in keys]
-    g = graph.generate(ctx, seed_recs, depth, label="graph_" + label)
+    if family == "kxk":
+        # deep searches of three-man endgames: one position-deduplicated graph per root
+        g = graph.Graph()
+        for i, sr in enumerate(seed_recs):
+            gi = graph.generate(ctx, [sr], depth, label="graph_%s_%d" % (label, i), by_position=True)
+            for k, nd in gi.nodes.items():
+                old = g.nodes.get(k)
+                if old is None or (old["succ"] is None and nd["succ"] is not None):
+                    g.nodes[k] = nd
+            g.records += gi.records
+            g.edges += gi.edges
+    else:
+        g = graph.generate(ctx, seed_recs, depth, label="graph_" + label)
     kp = ctx.path("keys_%s.ndjson" % label)
     with open(kp, "w") as f:
         for k in g.nodes:
@@ -254,11 +266,15 @@ def c08(ctx):
                 # lone king against a few men: stalemates and mates within the horizon (leaf verdict scoring)
                 (2, 40, 6, 3, 2, "bare2", "bare"), (3, 30, 6, 3, 2, "bare3", "bare"),
                 # roots built backwards from stalemates / mates: the terminal position sits exactly on the horizon
-                (1, 60, 0, 0, 2, "term1", "terminal"), (2, 60, 0, 0, 2, "term2", "terminal"), (3, 20, 0, 0, 2, "term3", "terminal")]
+                (1, 60, 0, 0, 2, "term1", "terminal"), (2, 60, 0, 0, 2, "term2", "terminal"), (3, 20, 0, 0, 2, "term3", "terminal"),
+                # K+Q / K+R against the lone king, defender to move, depth 6: forced mates of different lengths
+                # inside the horizon (quicker mate preferred, cut-offs at mate scores)
+                (6, 6, 0, 0, 1, "kxk6", "kxk")]
     else:
         plan = [(3, 150, 30, 5, 5, "d3", None), (4, 80, 20, 4, 4, "d4", None), (2, 60, 20, 6, 12, "d2mid", None),
                 (1, 300, 0, 0, 2, "bare1", "bare"), (2, 300, 40, 4, 3, "bare2", "bare"), (3, 200, 40, 4, 3, "bare3", "bare"), (4, 60, 10, 3, 2, "bare4", "bare"),
-                (1, 400, 0, 0, 2, "term1", "terminal"), (2, 400, 0, 0, 2, "term2", "terminal"), (3, 300, 0, 0, 2, "term3", "terminal"), (4, 100, 0, 0, 2, "term4", "terminal")]
+                (1, 400, 0, 0, 2, "term1", "terminal"), (2, 400, 0, 0, 2, "term2", "terminal"), (3, 300, 0, 0, 2, "term3", "terminal"), (4, 100, 0, 0, 2, "term4", "terminal"),
+                (6, 12, 0, 0, 1, "kxk6", "kxk"), (7, 4, 0, 0, 1, "kxk7", "kxk")]
     with ThreadPoolExecutor(max_workers=3) as ex:
         list(ex.map(lambda a: exact_batch(ctx, a[0], a[1], a[2], a[3], a[4], a[5], family=a[6]), plan))
     ctx.rule = ("roots: seeded random sparse positions (two kings + 1-5 men), half-move clock 0; search with a brand-new context, and sequences of successive searches of a game sharing ONE context "
